@@ -694,6 +694,24 @@ fn authorities(c: &ExternalActionCoordinatorV1, id: ExternalActionRequestIdV1, c
     format!("{a}/{b}/{d}")
 }
 
+/// Authorities a coordinator must refuse: an adapter work grant for a request that already has a
+/// durable settlement of ANY kind (no step is repeated), a request token for a claimed request.
+fn authority_violations(c: &ExternalActionCoordinatorV1, ids: &[ExternalActionRequestIdV1], tag: char, when: &str) -> Vec<String> {
+    let mut out = Vec::new();
+    for id in ids {
+        let Some(e) = c.observed_index().get(*id) else { continue };
+        if let Some(st) = &e.settlement {
+            if c.claim_grant(*id).is_ok() {
+                out.push(format!("grant-after-settlement[{tag}]:{}:{when}", kind_code(st.kind)));
+            }
+        }
+        if e.claim.is_some() && c.recorded_request(*id).is_ok() {
+            out.push(format!("token-after-claim[{tag}]:{when}"));
+        }
+    }
+    out
+}
+
 fn full_view(c: &ExternalActionCoordinatorV1, ids: &[ExternalActionRequestIdV1], cm: &Commits) -> String {
     let (d, n) = dump(c, ids, cm, true);
     let auth: Vec<String> = ids.iter().map(|id| authorities(c, *id, cm)).collect();
@@ -743,6 +761,11 @@ fn oracle_after<S: TStore>(s: &Sys<S>, cl: &mut Client, cm: &Commits, pre_view: 
     }
     // (2) recover(store) == live
     let ready = is_ready(&s.coord);
+    if ready {
+        for f in authority_violations(&s.coord, &ids, tag, "live") {
+            cl.flag(f);
+        }
+    }
     let dirty = tail_len(&s.store) > 0;
     let rec = ExternalActionCoordinatorV1::recover(&s.store);
     match (&rec, dirty) {
@@ -754,6 +777,9 @@ fn oracle_after<S: TStore>(s: &Sys<S>, cl: &mut Client, cm: &Commits, pre_view: 
         (Ok(_), true) => cl.flag(format!("recovered-over-dirty-tail[{tag}]:{what}")),
         (Err(e), _) => cl.flag(format!("recover-failed[{tag}]:{what}:{}", err_name(e))),
         (Ok(rc), false) => {
+            for f in authority_violations(rc, &ids, tag, "recovered") {
+                cl.flag(f);
+            }
             let rv = full_view(rc, &ids, cm);
             let lv = full_view(&s.coord, &ids, cm);
             if ready {
@@ -1135,7 +1161,12 @@ fn run_case<S: TStore>(mut a: Sys<S>, mut b: Sys<S>, ops: &[&str]) -> String {
                                 Err(e) => Res::Err(e),
                             },
                             "grant" => match s.coord.claim_grant(rq.request_id()) {
-                                Ok(g) => Res::Grant(g),
+                                Ok(g) => {
+                                    if let Some(st) = s.coord.observed_index().get(rq.request_id()).and_then(|e| e.settlement.as_ref()) {
+                                        cl.flag(format!("grant-after-settlement[{}]:{}:op", s.tag, kind_code(st.kind)));
+                                    }
+                                    Res::Grant(g)
+                                }
                                 Err(e) => Res::Err(e),
                             },
                             _ => match s.coord.admitted_settlement(rq.request_id()) {
